@@ -344,11 +344,15 @@ def run(rep, prog, thorough):
         "Signature slicing is read off the arguments that get_signature hands to the three description functions (matched by "
         "callee parameter name); call sites (SRC words 6..8; count + 12-byte list entries) by argument terms and stream "
         "stride; register-dump layout by the offsets of the terms passed to get_chip_desc/get_reg_data relative to the "
-        "loop-carried stream position, the data chunking loop (step = slice width), no caches across chips; every chip-data "
-        "subscript key passes through lower()/str() and has a KeyError fallback; _check_int accepts the full field range.")
+        "loop-carried stream position; signature list and register dump by running the parser summaries on sample payloads "
+        "with echoing look-up stubs; no caches across chips; every chip-data subscript key passes through lower()/str() and "
+        "has a KeyError fallback; _check_int accepts the full field range; the section payload reaches the plug-in unaltered.")
     check_signature(rep, prog)
     check_lookups(rep, prog)
     check_src_parser(rep, prog)
     check_sig_list(rep, prog)
     check_register_dump(rep, prog)
     check_small_sections(rep, prog)
+    # the hardware-diagnostics sections reach their plug-in as (subtype, version, exact payload) (rule shared with C18)
+    from .c18 import check_ud_names_and_args
+    check_ud_names_and_args(rep, prog)
